@@ -5,15 +5,21 @@ use futures::future;
 use serde::{Deserialize, Serialize};
 use std::collections::HashMap;
 
+/// Standard output of each command resource, keyed by the command and the directory it runs in
+/// (the same command text can be declared in several project directories).
 #[derive(Serialize, Deserialize, PartialEq)]
-pub struct ResourcesState(HashMap<String, String>);
+pub struct ResourcesState(HashMap<(String, std::path::PathBuf), String>);
+
+fn key(resource: &CmdResource) -> (String, std::path::PathBuf) {
+    (resource.cmd.to_string(), resource.dir.clone().into())
+}
 
 impl ResourcesState {
     pub async fn current(cmds: &[CmdResource]) -> Result<Self> {
         let futures = cmds.iter().map(|resource| async move {
             get_cmd_stdout(resource)
                 .await
-                .map(|stdout| (resource.cmd.to_string(), stdout))
+                .map(|stdout| (key(resource), stdout))
         });
 
         let vec = future::try_join_all(futures).await?;
@@ -23,7 +29,7 @@ impl ResourcesState {
     pub async fn eq_current_state(&self, cmds: &[CmdResource]) -> bool {
         let futures = cmds.iter().cloned().map(|resource| async move {
             match get_cmd_stdout(&resource).await {
-                Ok(stdout) => self.0.get(&resource.cmd) == Some(&stdout),
+                Ok(stdout) => self.0.get(&key(&resource)) == Some(&stdout),
                 Err(e) => {
                     log::error!("Command {} failed to execute: {}", resource.cmd, e);
                     false
